@@ -61,10 +61,10 @@ RJunction(i) ==
                [b \in 1..n |-> IF j = "Balance" THEN <<>> ELSE RSeq(Stages, 0, 2)])
 OKCase(x) ==
   CASE x.j = "Linear" -> WellFormed(x.srcs[1].p)
-    [] FanIn(x) -> /\ \A s \in 1..Len(x.srcs) : NoErr(x.srcs[s].p) /\ ~HasPar(x.srcs[s].p)
-                   /\ WellFormed(x.post)
+    [] FanIn(x) -> /\ \A s \in 1..Len(x.srcs) : NoErr(x.srcs[s].p) /\ ~HasPar(x.srcs[s].p) /\ ~HasOverlap(x.srcs[s].p)
+                   /\ WellFormed(x.post) /\ ~HasOverlap(x.post)
                    /\ (x.j \in {"Merge", "MergePref"} => AllElementwise(x.post) /\ NoErr(x.post))
-    [] OTHER -> \A b \in 1..Len(x.branches) : WellFormed(x.srcs[1].p \o x.branches[b])
+    [] OTHER -> \A b \in 1..Len(x.branches) : WellFormed(x.srcs[1].p \o x.branches[b]) /\ ~HasOverlap(x.srcs[1].p) /\ ~HasOverlap(x.branches[b])
 
 Cases == CASE Mode = "linear" -> LinearCases
            [] Mode = "junction" -> JunctionCases
